@@ -139,6 +139,7 @@ _SPECIAL_FORMS = [
     "flex1",
 ]
 
+_STRESS_RUNS = ["alt-lines-h", "same-lines-h", "r-lines", "rr-curves", "r-lines", "rr-curves"]
 _GENERAL_RUNS = ["alt-lines-h", "alt-lines-v", "same-lines-h", "same-lines-v", "r-lines", "zero-line", "hv-chain", "vh-chain", "hh-chain", "vv-chain", "rr-curves", "cat-curves", "line-curve-mix", "zero-curve"]
 
 
@@ -207,9 +208,9 @@ def _vec(draw, cat, frac):
     return [draw(nz), draw(nz)]
 
 
-def _general_run(draw, kind, frac):
+def _general_run(draw, kind, frac, long=False):
     """-> list of (op, args) in general form (one segment per operator) with chosen zero patterns."""
-    n = draw(st.integers(1, 5))
+    n = draw(st.integers(1, 5)) if not long else draw(st.integers(6, 30))
     out = []
     cats = "rhv0"
 
@@ -333,7 +334,7 @@ def _flat_program(draw, fmt="cff", mode=None, frac=None, hint_block=None, motifs
         # operand counts per operator: mostly CFF-like, sometimes up to the CFF2 stack limit
         limit = draw(st.sampled_from([48, 48, 48, 120, 513]))
     if mode is None:
-        mode = draw(st.sampled_from(["general", "general", "special", "special", "mixed"]))
+        mode = draw(st.sampled_from(["general", "general", "special", "special", "mixed", "stress"]))
     if frac is None:
         frac = draw(st.integers(0, 2)) == 0
     toks = []
@@ -367,13 +368,13 @@ def _flat_program(draw, fmt="cff", mode=None, frac=None, hint_block=None, motifs
         # moveto
         big = draw(st.integers(0, 5)) == 0
         mv = draw(st.lists(_numbers(frac, big=big), min_size=2, max_size=2))
-        if mode != "general":
+        if mode not in ("general", "stress"):
             k = draw(st.integers(0, 3))
             if k == 0:
                 mv[1] = 0
             elif k == 1:
                 mv[0] = 0
-        if mode == "general" or (mv[0] != 0 and mv[1] != 0) or draw(st.integers(0, 4)) == 0:
+        if mode in ("general", "stress") or (mv[0] != 0 and mv[1] != 0) or draw(st.integers(0, 4)) == 0:
             op, args = "rmoveto", mv
         elif mv[1] == 0:
             op, args = "hmoveto", mv[:1]
@@ -392,6 +393,8 @@ def _flat_program(draw, fmt="cff", mode=None, frac=None, hint_block=None, motifs
                 toks += a2 + ["rmoveto"]
         # path operators
         nops = draw(st.sampled_from([0, 1, 2, 2, 3, 3, 4, 5, 6, 8]))
+        if mode == "stress":
+            nops = min(nops, 3)
         for _ in range(nops):
             if nstems and draw(st.integers(0, 5)) == 0:
                 toks += ["hintmask", draw(st.binary(min_size=nb, max_size=nb))]
@@ -412,7 +415,10 @@ def _flat_program(draw, fmt="cff", mode=None, frac=None, hint_block=None, motifs
                 spans.append((start, len(toks)))
                 continue
             general = mode == "general" or (mode == "mixed" and draw(st.booleans()))
-            if general:
+            if mode == "stress":
+                # long runs of lines and oblique curves only: merged up to the stack limit
+                ops = _general_run(draw, draw(st.sampled_from(_STRESS_RUNS)), frac, long=True)
+            elif general:
                 ops = _general_run(draw, draw(st.sampled_from(_GENERAL_RUNS)), frac)
             else:
                 ops = [_special_op(draw, draw(st.sampled_from(_SPECIAL_FORMS)), frac, limit)]
